@@ -112,7 +112,9 @@ def check_model(group: ModelGroupType) -> None:
 
         while True:
             for item in particles:
-                if isinstance(item, groups.XsdGroup):
+                if item.max_occurs == 0:
+                    continue
+                elif isinstance(item, groups.XsdGroup):
                     current_path.append(item)
                     iterators.append(particles)
                     particles = iter(item)
